@@ -3,6 +3,7 @@ mod c01;
 mod c04;
 mod c08;
 mod c12;
+mod c14stress;
 mod c15;
 mod c16;
 mod e2;
@@ -18,6 +19,10 @@ fn main() {
     if args.get(1).map(|s| s.as_str()) == Some("replay") {
         bridge::quiet_panics();
         replay::run(args.get(2).map(|s| s.as_str()).unwrap_or(""));
+    }
+    if args.get(1).map(|s| s.as_str()) == Some("c14-stress") {
+        bridge::quiet_panics();
+        c14stress::run(args.get(2).map(|s| s.as_str()) != Some("thorough"));
     }
     let (prop, tier, _rest) = parse_args();
     bridge::quiet_panics();
